@@ -18,7 +18,7 @@ _NEXT = [0]
 
 
 class T(object):
-    __slots__ = ('op', 'args', 'sort', 'val', 'id')
+    __slots__ = ('op', 'args', 'sort', 'val', 'id', 'g')
 
     def __repr__(self):
         return to_str(self, 6)
@@ -37,6 +37,11 @@ def _mk(op, args, sort, val=None):
     if t is None:
         t = T()
         t.op, t.args, t.sort, t.val = op, tuple(args), sort, val
+        t.g = False
+        for a in args:
+            if a.g:
+                t.g = True        # mentions previous contents of an output ("garbage")
+                break
         t.id = _NEXT[0]
         _NEXT[0] += 1
         _TABLE[key] = t
@@ -63,8 +68,11 @@ class NonFinite(ArithmeticError):
     """A concrete inf/nan met the symbolic world."""
 
 
-def var(name, sort=R):
-    return _mk('var', (), sort, name)
+def var(name, sort=R, garbage=False):
+    t = _mk('var', (), sort, name)
+    if garbage:
+        t.g = True
+    return t
 
 
 TRUE = None
@@ -107,9 +115,9 @@ def add(a, b):
             return b
     elif b.op == 'const' and b.val == 0:
         return a
-    if b.op == 'neg' and b.args[0] is a:
+    if b.op == 'neg' and b.args[0] is a and not a.g:
         return _c(Fraction(0), s)
-    if a.op == 'neg' and a.args[0] is b:
+    if a.op == 'neg' and a.args[0] is b and not b.g:
         return _c(Fraction(0), s)
     return _mk('add', (a, b), s)
 
@@ -123,7 +131,7 @@ def neg(a):
 
 
 def sub(a, b):
-    if a is b:
+    if a is b and not a.g:
         return _c(Fraction(0), a.sort)
     return add(a, neg(b))
 
@@ -134,14 +142,16 @@ def mul(a, b):
         if b.op == 'const':
             return _c(a.val * b.val, s)
         if a.val == 0:
-            return a
+            # 0 * (previous contents of an output) is kept as a term: in floats it is NaN for
+            # non-finite contents, so the dependency must stay visible (see Ctx taint check)
+            return _mk('mul', (a, b), s) if b.g else a
         if a.val == 1:
             return b
         if a.val == -1:
             return neg(b)
     elif b.op == 'const':
         if b.val == 0:
-            return b
+            return _mk('mul', (b, a), s) if a.g else b
         if b.val == 1:
             return a
         if b.val == -1:
